@@ -48,12 +48,84 @@ def main():
         run.violation("C13 %s: kind=%s source=%s pass=%s sorted=%s items=%s -> %s %s" % (
             tag, o["kind"], o["source"], o["pass"], o["sorted"], json.dumps(o["items"]), o["obs"].get("result"), o["obs"].get("err", "")[:120]),
             {"kind": "refuse", "tag": tag, "case": {k: o[k] for k in o if k != "obs"}, "obs": o["obs"]})
+    long_part(run)
     run.cov["rule"] = ("every stream of <= MaxLen items over NC chromosomes (+1 unknown), positions 0..L+1, both file types, from TLC; each replayed "
                        "under several (source, passes, sort requirement, threads); non-trivial = at least two items; distinct by (kind, items, source, pass, sorted)")
     run.sample(obs[len(obs) // 2])
     run.assumptions += ["the parallel source is given run offsets computed by the harness (linear scan), so C13 does not inherit indexer faults (C18)",
                         "which error variant/message is returned is not constrained"]
     return run.finish()
+
+
+def long_part(run):
+    """Long run-structured streams through the REAL converters (exit status = the error value): here the parallel
+    path gets its chromosome offsets from the bisecting indexer, as in production, so a short foreign run inside a long
+    run is only noticed by the per-line checks of the parallel source."""
+    from checks import cli_family as cf
+    from pyverif.image import chrom_name
+    r = tlc("MC_RefusalRuns", "MC_RefusalRuns.cfg", os.path.join(run.wd, "mc_runs"), workers=4, timeout=1200)
+    tlc_must_pass(r, "MC_RefusalRuns")
+    run.add_tlc("run_structured_streams", r)
+    beh = r.replays
+    rng = random.Random(run.seed + 13)
+    rng.shuffle(beh)
+    valid = [b for b in beh if not b["must"]]
+    beh = valid[:60 if run.thorough else 15] + [b for b in beh if b["must"]][:600 if run.thorough else 80]
+    if sum(b["must"] for b in beh) < 20 or sum(1 - b["must"] for b in beh) < 5:
+        raise ToolError("vacuity: long streams %d must-refuse of %d" % (sum(b["must"] for b in beh), len(beh)))
+    tdir = cf.tools_dir()
+    d = os.path.join(run.wd, "long")
+    os.makedirs(d, exist_ok=True)
+    modes = [["-t", "4", "-p", "yes"], ["-t", "4", "-p", "yes", "--single-pass"], ["-t", "2", "-p", "no"], ["-t", "1"]]
+
+    def one(kb):
+        k, b = kb
+        kind = "bw" if k % 2 == 0 else "bb"
+        pos = {}
+        inp = os.path.join(d, "l%d.%s" % (k, "bedGraph" if kind == "bw" else "bed"))
+        with open(inp, "w") as f:
+            for c, n in b["runs"]:
+                p = pos.get(c, 0)
+                for i in range(n):
+                    f.write("%s\t%d\t%d\t%s\n" % (chrom_name(c), p, p + 1, "1.5" if kind == "bw" else "n%d" % i))
+                    p += 1 + (i % 3 == 0)
+                pos[c] = p
+        sizes = os.path.join(d, "l%d.sizes" % k)
+        with open(sizes, "w") as f:
+            for c in (1, 2, 3):
+                f.write("%s\t%d\n" % (chrom_name(c), 100000))
+        out = []
+        for mi, m in enumerate(modes):
+            if (k + mi) % 2 and not run.thorough:
+                continue
+            big = os.path.join(d, "l%d_%d.%s" % (k, mi, kind))
+            rc, _, err = cf.run_tool(tdir, "own", "bedgraphtobigwig" if kind == "bw" else "bedtobigbed", [inp, sizes, big] + m, timeout=120)
+            made = os.path.exists(big) and os.path.getsize(big) > 0
+            res = "hang" if rc == 124 else ("err" if rc != 0 else ("ok" if made else "silent"))
+            out.append({"long": 1, "kind": kind, "runs": b["runs"], "must": b["must"], "mode": " ".join(m), "obs": {"result": res, "rc": rc, "err": err[-160:]}})
+            try:
+                os.remove(big)
+            except OSError:
+                pass
+        os.remove(inp); os.remove(sizes)
+        return out
+    obs = [o for part in cf.run_parallel(one, list(enumerate(beh))) for o in part]
+    lines = []
+    for o in obs:
+        lines.append(json.dumps(o, separators=(",", ":")))
+        run.count_case(json.dumps([o["kind"], o["runs"], o["mode"]]), True)
+    bad = validate_obs("Obs_Refusal", "Obs.cfg", lines, run.wd, "obs_long", shards=2)
+    run.cov["traces_validated_against_impl"] += len(obs)
+    run.cov["long_stream_runs"] = len(obs)
+    res = {}
+    for o in obs:
+        key = "%s/must=%d" % (o["obs"]["result"], o["must"])
+        res[key] = res.get(key, 0) + 1
+    run.cov["long_stream_outcomes"] = res
+    for i, tag in bad:
+        o = obs[i]
+        run.violation("C13 %s (long stream through the real converter): kind=%s runs=%s mode=%s -> %s" % (tag, o["kind"], json.dumps(o["runs"]), o["mode"], json.dumps(o["obs"])),
+                      {"kind": "refuse-long", "tag": tag, "case": {k: o[k] for k in o if k != "obs"}, "obs": o["obs"]})
 
 
 if __name__ == "__main__":
